@@ -58,6 +58,14 @@ CHECKS.update({
          "Decoders: every wire type x 3 paths x suite from a valid encoding: every truncation, extension, per-position substitutions and injected extreme length varints, degenerate inputs, every other suite's encodings into every decoder. Protocol steps: 14 entry-point groups with the full product of per-argument menus of well-typed hostile values (empty / huge / duplicated / inconsistent maps and lists, identity elements, zero scalars, empty and over-long commitments incl. u16-wrapping lengths, thresholds None/0/1/65535, 1 MiB messages). No call may unwind or hang.",
          "One byte-level deviation per input; an allocation abort kills the process and is then reported by the check script.", "DESIGN 4 C14"),
 })
+CHECKS.update({
+ "C15": ("exploration", "environment-answer exploration: scripted random sources x commit/preprocess sequences, byte stream mapped to nonces by an independent H3",
+         "Suites x share alphabet x 10 random sources (counter streams, constant, repeating 32- and 5-byte blocks, zero-then-good, A,A,B and A,B,A patterns) x call sequences (commit, repeated commit, preprocess(k) for k in {0,1,2,5,255}, mixed): the byte stream handed out must be 64 bytes per pair and hiding_j / binding_j must equal an independently written H3 of the j-th / next 32 bytes followed by the share encoding; commitments = G*nonce; k pairs; (bytes, share) -> nonce is injective over the case; no zero nonce / identity commitment.",
+         "The independent H3 uses the curve crates' scalar reduction and sha2/shake, none of frost-*.", "DESIGN 4 C15"),
+ "C16": ("exploration", "environment-answer exploration: every RNG-taking entry point under stream pairs and EVERY single-draw deviation",
+         "10 entry points x suites x (n,t): same stream => identical output; other stream => every listed secret-derived value changes; values within a call pairwise distinct; >= 16 bytes per secret; every single-draw deviation (each draw j answered from another stream, all others unchanged) changes the output; zero answers to key / proof-nonce draws are rejected and re-drawn; batch verification draws one fresh blinder per item.",
+         "'Nowhere else' is decided as determinism under a scripted source within one process; blinder values are decided exactly only on the tiny field (C19).", "DESIGN 4 C16"),
+})
 NOT_APPLICABLE = {}
 
 def main():
